@@ -433,6 +433,37 @@ fn run(ctx: &mut Ctx) {
             exec(ctx, &big, &h, &getters, "long_header");
         });
     }
+    // stored sizes above the specified one: inside the tag's own padding the typed accessors report the stored size; a
+    // fixed-size kind that claims more (trailing vendor bytes) is stepped over by its stored size, and the tags behind
+    // it are found where the stored size says
+    ctx.bound("stored_sizes", "per fixed-size kind K: headers [K with stored size S][entry address][module alignment][end] for S from the specified size to the specified size + 24 (the claimed bytes present, marker-filled or holding a module-alignment tag image); all getters (the getter of K itself while S stays inside the tag's padding) and the walk");
+    for k in 2..=10u16 {
+        let base = hd::sample(k, 0, 1);
+        let spec = rd32(&base, 4) as usize;
+        for size in spec..=spec + 24 {
+            for fillimg in [false, true] {
+                let mut t = base.clone();
+                t.resize(round8(size), 0);
+                for i in spec..t.len() {
+                    t[i] = marker(i, 29);
+                }
+                if fillimg && t.len() >= round8(spec) + 8 {
+                    let o = round8(spec);
+                    t[o..o + 8].copy_from_slice(&[6, 0, 0, 0, 8, 0, 0, 0]);
+                }
+                wr32(&mut t, 4, size as u32);
+                let tags = vec![t, hd::sample(if k == hd::ENTRY { hd::ENTRY_EFI32 } else { hd::ENTRY }, 0, 0), hd::sample(if k == hd::MODULE_ALIGN { hd::EFI_BS } else { hd::MODULE_ALIGN }, 0, 0), hd::end_tag()];
+                let h = hd::header(0, &tags, 0);
+                let kinds: Vec<u16> = (1..=10u16).filter(|&g| g != k || size <= round8(spec)).collect();
+                let describe = || J::obj().set("part", "stored_sizes").set("kind", hd::kind_name(k)).set("stored_size", size).set("specified_size", spec).set("claimed_bytes_hold_a_tag_image", fillimg).set("header", J::hex(&h));
+                ctx.leaf(describe, |ctx| {
+                    ctx.state(hash::hash_bytes(&h));
+                    ctx.nontrivial();
+                    exec(ctx, &arena, &h, &kinds, "stored_sizes");
+                });
+            }
+        }
+    }
     // addresses relative to one another and to the header's own extent
     ctx.bound("relative_addresses", "with H in {1 MiB, 0} and every distance d in 0..=160 (step 4, plus d +- 1 around multiples of 8): headers [address: header at H, load end / bss end H + d][entry / EFI32 entry / EFI64 entry address H + d][relocatable window H..H + d][end] and the same without the address tag; all 10 getters and the walk");
     {
